@@ -283,17 +283,23 @@ def _closest_points_on_segments_2d(a0x: float, a0y: float, a1x: float, a1y: floa
     t = 0.0
     if den > 0.0:
         s = (B * E - C * D) / den
-        t = (A * E - B * D) / den
 
-    # clamp and recompute as needed
+    # clamp s, then take t as the best response to s.  For parallel or
+    # nearly parallel segments (den ~ 0) s is arbitrary but any s in [0, 1]
+    # is then optimal as long as t is recomputed from it.
     if s < 0.0:
         s = 0.0
-        if C > 0.0:
-            t = E / C
     elif s > 1.0:
         s = 1.0
-        if C > 0.0:
-            t = (E + B) / C
+    if C > 0.0:
+        t = (E + B * s) / C
+    elif A > 0.0:
+        # second segment is a single point: project it onto the first one
+        s = -D / A
+        if s < 0.0:
+            s = 0.0
+        elif s > 1.0:
+            s = 1.0
 
     if t < 0.0:
         t = 0.0
